@@ -144,6 +144,40 @@ func groupFoundations(c *Ctx, withAlias bool) {
 		al := run.Rule("ALIAS", "point and scalar operations compute the same result when two same-typed pointer parameters denote one object", 100)
 		run.Sample(checkAliasing(al, p, []string{"curve", "curve/scalar"}))
 	}
+	skeletonFoundations(c)
+}
+
+// skeletonFoundations: the serial (*Generic) scalar-multiplication routines, which the baseline
+// tests never execute on an AVX2 machine, agree with their tested vector twins (dispatch guard,
+// equal skeleton normal forms, Horner shape, add/sub polarity, recoding width vs table size) —
+// the E-SIB rules of C03, in the amd64 and purego configurations.
+func skeletonFoundations(c *Ctx) {
+	run := c.Run
+	cfgs := []string{"amd64", "purego"}
+	if !c.Preload(cfgs...) {
+		return
+	}
+	run.Rule("SIB-dispatch", "every call edge into the vector-only set is dominated by the true edge of supportsVectorizedEdwards; each switch pairs a vector routine with a generic sibling", 73)
+	run.Rule("SIB-skel"+esib.SufPair, "the two members of every (vector, generic) pair have equal skeleton normal forms", 27)
+	run.Rule("SIB-skel"+esib.SufHorner, "Horner shape per algorithm", 28)
+	run.Rule("SIB-skel"+esib.SufPolarity, "add/sub polarity of every digit use", 187)
+	run.Rule("SIB-skel"+esib.SufWidth, "recoding width <-> table size", 165)
+	run.Rule("SIB-skel"+esib.SufCtor, "lookup-table constructors", 16)
+	run.Rule("SIB-skel"+esib.SufEntry, "entry-point facts", 28)
+	generic := c.Prog("purego")
+	for _, id := range cfgs {
+		p := c.Prog(id)
+		if p == nil {
+			continue
+		}
+		run.SetConfig(id)
+		g := generic
+		if p.Obj("curve", "errVectorNotSupported") != nil {
+			g = p
+		}
+		d := esib.CheckDispatch(run, p, g, "SIB-dispatch")
+		esib.CheckSkeletons(run, p, d.Pairs, "SIB-skel")
+	}
 }
 
 // transcriptFoundations: Merlin framing, STROBE structure and the Keccak sibling (the rules of C13).
@@ -167,7 +201,9 @@ func transcriptFoundations(c *Ctx) {
 
 const expRuleDesc = "field inversion, the (p-5)/8 power, SqrtRatioI's candidate tests and scalar inversion raise/compare exactly the specified monomials (E-EXP: abstract interpretation in the exponent domain); SqrtRatioI selects, corrects and reports its root as specified"
 
-func expRule(run *report.Run, ncfg int) *report.Rule { return run.Rule("EXP-chain", expRuleDesc, 6*ncfg) }
+func expRule(run *report.Run, ncfg int) *report.Rule {
+	return run.Rule("EXP-chain", expRuleDesc, 6*ncfg)
+}
 
 func checkExpAll(run *report.Run, p *load.Program, exp *report.Rule) {
 	s := checkExpChains(p, exp)
